@@ -706,6 +706,11 @@ def gen_scale_case(rnd):
             c["nv"] = None if r < 0.25 else rnd.choice([-2, 0, 1, 1, 2, 3, 5, 2.5])
     weighted = rnd.random() < 0.4
     rs = gen_respondents(rnd, dims, rnd.choice([0, 4, 9, 16, 30]), weighted)
+    int_weights = weighted and rnd.random() < 0.5
+    if int_weights:
+        # whole-number weights: the weighted counts are integers ("for integer counts - median")
+        for r in rs:
+            r["w"] = float(rnd.choice([0, 1, 1, 2, 3]))
     tr = {}
     for side, d in (("rows_dimension", dims[0]),) + ((("columns_dimension", dims[1]),) if nd == 2 else ()):
         t = {}
@@ -717,7 +722,7 @@ def gen_scale_case(rnd):
             t["elements"] = {str(rnd.choice(ids)): {"hide": True}}
         if t:
             tr[side] = t
-    return dict(dims=dims, rs=rs, weighted=weighted, transforms=tr)
+    return dict(dims=dims, rs=rs, weighted=weighted, transforms=tr, int_weights=int_weights)
 
 
 def wstats(pairs):
@@ -734,7 +739,8 @@ class ScaleStats(EnumContract):
     name = "e2e:scale mean / sd / std-err / median vs respondent-level statistics (slices and strands)"
     props = ("C14", "C05")
     bound = "1-D and 2-D CAT responses, <= 4 categories with partial / repeated / negative / unsorted numeric values, <= 30 respondents, optional subtotal and hidden element; seeded sample"
-    clauses = ("scale-mean", "scale-sd", "scale-stderr", "scale-median", "scale-margins-invariant", "strand-scale", "strand-scale-none")
+    clauses = ("scale-mean", "scale-sd", "scale-stderr", "scale-median", "scale-margins-invariant", "strand-scale", "strand-scale-none",
+               "scale-margin-values")
 
     def cases(self, cfg, seed, thorough):
         rnd = random.Random(6000 + seed)
@@ -748,6 +754,7 @@ class ScaleStats(EnumContract):
 
         warnings.simplefilter("ignore")
         dims, rs, weighted, tr = case["dims"], case["rs"], case["weighted"], case["transforms"]
+        int_counts = (not weighted) or case.get("int_weights", False)
         bad = set()
         cube = Cube(tabulate(dims, rs, weighted), transforms=copy.deepcopy(tr), population=1000)
         p = cube.partitions[0]
@@ -772,7 +779,7 @@ class ScaleStats(EnumContract):
             else:
                 if not same(p.scale_mean, mean) or not same(p.scale_std_dev, sd) or not same(p.scale_std_err, sd / math.sqrt(tot)):
                     bad.add("strand-scale")
-                if not weighted:
+                if int_counts:
                     exp = float(np.median([v for v, w in pairs for _ in range(int(w))]))
                     if not same(p.scale_median, exp):
                         bad.add("strand-scale")
@@ -825,10 +832,33 @@ class ScaleStats(EnumContract):
                 se = sd / math.sqrt(margin) if margin > 0 and sd == sd else float("nan")
                 if not same(float(got_se[pos]), se):
                     bad.add("scale-stderr")
-                if not weighted:
-                    exp = float(np.median([v for v, w in pairs for _ in range(int(w))])) if pairs else float("nan")
+                if int_counts:
+                    rep = [v for v, w in pairs for _ in range(int(w))]
+                    exp = float(np.median(rep)) if rep else float("nan")
                     if not same(float(got_med[pos]), exp):
                         bad.add("scale-median")
+        # the margins: the same statistics over every respondent with a valid answer on both
+        # dimensions (None without numeric values / numeric-valued respondents for the median)
+        for name_pre, opp_d, opp_V, oi in (("rows", cd, C, 1), ("columns", rd, R, 0)):
+            pairs = [(opp_d["cats"][r["a"][oi]]["nv"], r["w"]) for r in rs
+                     if r["a"][0] in R and r["a"][1] in C and opp_d["cats"][r["a"][oi]]["nv"] is not None]
+            has_nv = any(opp_d["cats"][k]["nv"] is not None for k in opp_V)
+            got_mean = getattr(p, name_pre + "_scale_mean_margin")
+            got_med = getattr(p, name_pre + "_scale_median_margin")
+            if not has_nv:
+                if got_mean is not None or got_med is not None:
+                    bad.add("scale-margin-values")
+                continue
+            mean, _sd, tot = wstats(pairs)
+            if got_mean is None or not ((got_mean != got_mean and mean != mean) or abs(got_mean - mean) <= 1e-9 * max(1, abs(mean))):
+                bad.add("scale-margin-values")
+            if int_counts:
+                rep = [v for v, w in pairs for _ in range(int(w))]
+                if not rep:
+                    if got_med is not None:
+                        bad.add("scale-margin-values")
+                elif got_med is None or abs(float(got_med) - float(np.median(rep))) > 1e-9:
+                    bad.add("scale-margin-values")
         # scalar statistics do not depend on display transforms (C05)
         p0 = Cube(tabulate(dims, rs, weighted), population=1000).partitions[0]
         for nm in ("columns_scale_mean_margin", "rows_scale_mean_margin", "columns_scale_median_margin", "rows_scale_median_margin"):
@@ -1906,6 +1936,143 @@ class OverlapPairwiseEndToEnd(EnumContract):
 
 
 REGISTRY.append(OverlapPairwiseEndToEnd())
+
+
+def gen_mr_overlap_case(rnd):
+    rd = dict(kind="MR", name="a", n=rnd.choice([1, 2, 3]))
+    cd = dict(kind="MR", name="b", n=rnd.choice([2, 3]))
+    rs = gen_respondents(rnd, [rd, cd], rnd.choice([8, 15, 30]), False)
+    tr = {}
+    t = {}
+    if rnd.random() < 0.4:
+        t["order"] = {"type": "explicit", "element_ids": rnd.sample(list(range(1, cd["n"] + 1)), cd["n"])}
+    if rnd.random() < 0.25:
+        t["elements"] = {str(rnd.randrange(1, cd["n"] + 1)): {"hide": True}}
+    if t:
+        tr["columns_dimension"] = t
+    if rnd.random() < 0.3:
+        tr["rows_dimension"] = {"order": {"type": "explicit", "element_ids": rnd.sample(list(range(1, rd["n"] + 1)), rd["n"])}}
+    pw = {}
+    alpha = rnd.choice([None, 0.05, [0.3, 0.05], 0.6])
+    if alpha is not None:
+        pw["alpha"] = alpha
+    if rnd.random() < 0.45:
+        pw["only_larger"] = False
+    if pw:
+        tr["pairwise_indices"] = pw
+    return dict(dims=[rd, cd], rs=rs, weighted=False, transforms=tr)
+
+
+def mr_overlap_response(dims, rs):
+    """MR x MR response with the overlap / valid_overlap measures: one more axis (the paired
+    item of the columns MR) after the four axes of the counts"""
+    rd, cd = dims
+    resp = tabulate(dims, rs, False)
+    kr, k = rd["n"], cd["n"]
+    ov = [0] * (kr * 3 * k * 3 * k)
+    vo = [0] * (kr * 3 * k * 3 * k)
+    for r in rs:
+        ritems, items = r["a"]
+        for i in range(kr):
+            for a in range(k):
+                for b in range(k):
+                    flat = (((i * 3 + ritems[i]) * k + a) * 3 + items[a]) * k + b
+                    if items[b] == SEL:
+                        ov[flat] += 1
+                    if items[b] != MIS:
+                        vo[flat] += 1
+    meta = {"type": {"class": "numeric", "subvariables": ["%04d" % i for i in range(k)]}, "references": {}}
+    resp["result"]["measures"]["overlap"] = {"data": ov, "n_missing": 0, "metadata": meta}
+    resp["result"]["measures"]["valid_overlap"] = {"data": vo, "n_missing": 0, "metadata": meta}
+    return resp
+
+
+class MrOverlapPairwiseEndToEnd(EnumContract):
+    name = "e2e:overlap-corrected pairwise tests and index sets (MR x MR with overlap measures, public API)"
+    props = ("C13", "C05")
+    bound = ("MR (1-3 items) x MR (2-3 items) unweighted responses with overlap / valid_overlap measures tabulated from "
+             "<= 30 respondents, optional explicit order of either dimension / hidden column item, alpha and only_larger "
+             "variants; seeded sample")
+    clauses = ("mr-overlap-t", "mr-overlap-p-other-items", "mr-overlap-p-self", "mr-overlap-indices",
+               "mr-overlap-never-self", "mr-overlap-exception")
+
+    def cases(self, cfg, seed, thorough):
+        rnd = random.Random(9900 + seed)
+        for _ in range(1500 if thorough else 200):
+            yield gen_mr_overlap_case(rnd)
+
+    def check_case(self, case, cfg):
+        import numpy as np
+        import warnings
+        from scipy.stats import t as tdist
+        from cr.cube.cube import Cube
+
+        warnings.simplefilter("ignore")
+        dims, rs, tr = case["dims"], case["rs"], case["transforms"]
+        rd, cd = dims
+        KR, K = rd["n"], cd["n"]
+        bad = set()
+        try:
+            p = Cube(mr_overlap_response(dims, rs), transforms=copy.deepcopy(tr) or None, population=1000).partitions[0]
+            co = [int(i) for i in p.column_order()]
+            ro = [int(i) for i in p.row_order()]
+
+            def n_(pred):
+                return float(sum(1 for r in rs if pred(r["a"][0], r["a"][1])))
+
+            # per row item i: respondents with a valid answer on it
+            S = np.array([[[n_(lambda x, y: x[i] != MIS and y[a] == SEL and y[b] == SEL) for b in range(K)] for a in range(K)] for i in range(KR)])
+            N = np.array([[[n_(lambda x, y: x[i] != MIS and y[a] != MIS and y[b] != MIS) for b in range(K)] for a in range(K)] for i in range(KR)])
+            cnt = np.array([[n_(lambda x, y: x[i] == SEL and y[a] == SEL) for a in range(K)] for i in range(KR)])
+            cbase = np.array([[n_(lambda x, y: x[i] != MIS and y[a] == SEL) for a in range(K)] for i in range(KR)])
+            with np.errstate(all="ignore"):
+                colp = cnt / cbase
+
+            def tp(a, b, i):
+                if a == b:
+                    return 0.0, 1.0
+                with np.errstate(all="ignore"):
+                    pa, pb, pab = S[i, a, a] / N[i, a, a], S[i, b, b] / N[i, b, b], S[i, a, b] / N[i, a, b]
+                    df = N[i, a, a] + N[i, b, b] - N[i, a, b]
+                    t = (colp[i, b] - colp[i, a]) / np.sqrt(1 / df * (pa * (1 - pa) + pb * (1 - pb) + 2 * pa * pb - 2 * pab))
+                    pv = 2 * (1 - tdist.cdf(abs(t), df - 2))
+                return float(t), float(pv)
+
+            alpha_cfg = (tr.get("pairwise_indices") or {}).get("alpha")
+            a1 = 0.05 if not alpha_cfg else (alpha_cfg if isinstance(alpha_cfg, float) else sorted(alpha_cfg[:2])[0])
+            only_larger = (tr.get("pairwise_indices") or {}).get("only_larger", True) is not False
+            idx = p.pairwise_indices
+            for c, a in enumerate(co):
+                gt = np.asarray(p.pairwise_significance_t_stats(c), dtype=float)
+                gp = np.asarray(p.pairwise_significance_p_vals(c), dtype=float)
+                for rr, row in enumerate(ro):
+                    exp_set = []
+                    skip = False
+                    for kpos, b in enumerate(co):
+                        et, ep = tp(a, b, row)
+                        if not close([gt[rr, kpos]], [et], 1e-6):
+                            bad.add("mr-overlap-t")
+                        if b == a:
+                            if not close([gp[rr, kpos]], [1.0]):
+                                bad.add("mr-overlap-p-self")
+                            continue
+                        if not close([gp[rr, kpos]], [ep], 1e-6):
+                            bad.add("mr-overlap-p-other-items")
+                        if ep == ep and abs(ep - a1) < 1e-7:
+                            skip = True
+                        if ep < a1 and (not only_larger or et < 0):
+                            exp_set.append(kpos)
+                    got = tuple(int(x) for x in idx[rr][c])
+                    if c in got:
+                        bad.add("mr-overlap-never-self")
+                    if not skip and tuple(k_ for k_ in got if k_ != c) != tuple(exp_set):
+                        bad.add("mr-overlap-indices")
+        except Exception as e:
+            bad.add("mr-overlap-exception:%s" % type(e).__name__)
+        return sorted(bad)
+
+
+REGISTRY.append(MrOverlapPairwiseEndToEnd())
 
 
 # =======================================================================================
